@@ -101,6 +101,31 @@ SEEDS = [
   {'C17': 'VIOLATION crypto::PublicKey::from_proto::ensures.rel', 'history': 'first UNDECIDED (the conversion schema Algorithm -> builder Algorithm had no contract in unit chain); same defect class as C17-1 of round 1'}),
  ('C17-4', '/scratch/t/r3/C17-2', 'C17', 'a small-order ed25519 public key with a crafted signature (verify_strict -> verify)',
   {'C17': 'VIOLATION crypto::ed25519::PublicKey::verify_signature::ensures.strict', 'C01': 'same obligation', 'C15': 'same obligation'}),
+ # ---- round 4 (against HEAD cb1e0aa) ----
+ ('C09-3', '/scratch/t/r4/C09-1', 'C09', 'i64::MIN / -1 in a check of an appended block (checked_div replaced by a zero test and a plain division)',
+  {'C09': 'VIOLATION datalog::expression::Binary::evaluate::call-pre[i / j]'}),
+ ('C09-4', '/scratch/t/r4/C09-2', 'C09', 'a snapshot with zero blocks restored with from_snapshot (guard removed: blocks = Some(vec![])) and then authorize(): the decision procedure indexes blocks[0]',
+  {'C09': 'VIOLATION token::authorizer::snapshot::Authorizer::from_snapshot::ensures.blocks_nonempty', 'history': 'first NOT detected (exit 0): authorize_inner carried the precondition `blocks is Some ==> len >= 1`, established by build_inner only; from_snapshot was outside the units. Now under contract (unit loadb)'}),
+ ('C01-3', '/scratch/t/r4/C01-1', 'C01', 'a small-order ed25519 next key announced by a holder-signed block, then any rewriting of later blocks (verify_strict -> verify)',
+  {'C01': 'VIOLATION crypto::ed25519::PublicKey::verify_signature::ensures.strict'}),
+ ('C01-4', '/scratch/t/r4/C01-2', 'C01', 'a version-0 third-party block through UnverifiedBiscuit::unsafe_deprecated_deserialize(..).verify(..) moved from another token',
+  {'C01': 'VIOLATION format::SerializedBiscuit::verify_inner::loop0.prefix', 'C07': 'same obligation'}),
+ ('C04-5', '/scratch/t/r4/C04-1', 'C04', 'a `reject if` with two alternatives in a block n >= 1 where an earlier alternative matches and the last one does not (early break removed)',
+  {'C04': 'VIOLATION token::authorizer::Authorizer::authorize_inner::loop8.all_reject / loop8.flag'}),
+ ('C04-6', '/scratch/t/r4/C04-2', 'C04', 'the same fact derived in a later round under a smaller origin than the one already stored (FactSet::merge prunes with the inclusion test reversed)',
+  {'C04': 'NOT detected (exit 0): FactSet::merge is an assumed contract of unit engine (fs_view union); HashMap entry / iterator-chain code'}),
+ ('C10-3', '/scratch/t/r4/C10-1', 'C10', 'a run that ends in a run-limit error, then a second authorize / query on the same authorizer (rounds of the failed run not added to the counter)',
+  {'C10': 'VIOLATION datalog::World::run_with_limits::ensures.error_accounted', 'history': 'first NOT detected (exit 0): the contract only said the counter never decreases; the clause "a run-limit error has counted at least one round" was added'}),
+ ('C10-4', '/scratch/t/r4/C10-2', 'C10', 'an overrun in the LAST query of the last block (time check moved in front of the evaluation)',
+  {'C10': 'VIOLATION token::authorizer::Authorizer::authorize_inner::assert[reads + 1 == evals]', 'history': 'first NOT detected (exit 0): the ghost counters only required as many reads as evaluations; evaluation and clock read must now strictly alternate, evaluation first'}),
+ ('C03-5', '/scratch/t/r4/C03-1', 'C03', 'a `trusting previous` scope in block n and a block at position n + 1 (range 0..=current_block + 1)',
+  {'C03': 'VIOLATION datalog::origin::TrustedOrigins::from_scopes (scope step assertion)'}),
+ ('C03-6', '/scratch/t/r4/C03-2', 'C03', 'an authorizer restored from a snapshot with a trusted third-party block followed by another block (key -> block map built with i + 1)',
+  {'C03': 'VIOLATION token::authorizer::snapshot::Authorizer::from_snapshot (push_rel step of the key-map invariant)', 'history': 'first NOT detected (exit 0): from_snapshot was outside the units'}),
+ ('C15-3', '/scratch/t/r4/C15-1', 'C15', 'an ed25519 block signature with appended bytes (only the first 64 bytes are verified): a verifying variant with another revocation id',
+  {'C15': 'VIOLATION crypto::ed25519::PublicKey::verify_signature::ensures.strict'}),
+ ('C15-4', '/scratch/t/r4/C15-2', 'C15', 'UnverifiedBiscuit::append_third_party reuses the current proof key as the next key',
+  {'C15': 'VIOLATION token::unverified::UnverifiedBiscuit::append_third_party::ensures.fresh_key (the RNG-sourced next key clause added in this phase)'}),
 ]
 only = sys.argv[1:] 
 for sid, src, prop, needs, det in SEEDS:
